@@ -75,6 +75,9 @@ def render(shape, cfg, split='one', default_ty='u8'):
             return '%s#[educe(%s,)]\n' % (ind, ', '.join(metas))
         if split == 'eachc':
             return ''.join('%s#[educe(%s,)]\n' % (ind, m) for m in metas)
+        if split == 'eachf':    # one attribute per meta with other tools' attributes and a doc comment in between
+            sep = ['%s#[allow(dead_code)]\n' % ind, '%s/// documented\n' % ind, '%s#[cfg_attr(any(), deprecated)]\n' % ind]
+            return ''.join(('%s#[educe(%s)]\n' % (ind, m)) + (sep[k % 3] if k + 1 < len(metas) else '') for k, m in enumerate(metas))
         return ''.join('%s#[educe(%s)]\n' % (ind, m) for m in metas)
 
     def fty(vi, fi):
